@@ -19,6 +19,7 @@ def declare_array(name, length=None, lo=None, hi=None):
 
 
 _IMUL = z3.Function('imul', z3.IntSort(), z3.IntSort(), z3.IntSort())
+_IMOD = z3.Function('imod', z3.IntSort(), z3.IntSort(), z3.IntSort())
 
 
 class IntEnc:
@@ -31,6 +32,7 @@ class IntEnc:
         self.vars = {}
         self.extra = []
         self.opaque_mul = False  # products of two non-constant terms as an uninterpreted function plus sign / unit facts
+        self.uf_mod = False      # x mod (non-literal divisor) as an uninterpreted function with its range fact only (congruence suffices)
 
     def z(self, t):
         m = self.memo
@@ -39,6 +41,14 @@ class IntEnc:
                 continue
             m[n.id] = self._node(n, [m[a.id] for a in n.args])
         return m[t.id]
+
+    def _mod(self, x, y):
+        if not self.uf_mod or z3.is_int_value(z3.simplify(y)): return x % y
+        if not getattr(self, '_imod_axiom', False):
+            self._imod_axiom = True
+            u, v = z3.Ints('imod!x imod!y')
+            self.extra.append(z3.ForAll([u, v], z3.Implies(v > 0, z3.And(_IMOD(u, v) >= 0, _IMOD(u, v) < v)), patterns=[_IMOD(u, v)]))
+        return _IMOD(x, y)
 
     def _p2(self, ez):
         ez = z3.simplify(ez)
@@ -75,7 +85,7 @@ class IntEnc:
             return a[0] * a[1]
         if op == 'neg': return -a[0]
         if op == 'fdiv': return a[0] / a[1]
-        if op == 'mod': return a[0] % a[1]
+        if op == 'mod': return self._mod(a[0], a[1])
         if op == 'pow2': return self._p2(a[0])
         if op == 'shl': return a[0] * self._p2(a[1])
         if op == 'shr': return a[0] / self._p2(a[1])
@@ -86,7 +96,7 @@ class IntEnc:
                 for (p, q, pz) in ((x, y, a[0]), (y, x, a[1])):
                     w = ir._mask_width(q)
                     if w is not None:
-                        return pz % self._p2(self.z(w))
+                        return self._mod(pz, self._p2(self.z(w)))
             if op == 'band':
                 # single-bit test: x & 2**k == 2**k * ((x div 2**k) mod 2)   (exact for all integers x, k >= 0)
                 for (p, q, pz) in ((x, y, a[0]), (y, x, a[1])):
@@ -167,6 +177,9 @@ class IntEnc:
                 if k is not None:
                     kz = self.z(k)
                     ax.append(z3.Implies(z3.And(kz >= 0, qz >= 0, qz < self._p2(kz)), _band(pz, qz) == 0))
+                if p.op == 'const' and p.val > 0 and p.val & (p.val - 1) == 0:
+                    # the same lemma for a literal power of two: 2^k & v == 0 when 0 <= v < 2^k
+                    ax.append(z3.Implies(z3.And(qz >= 0, qz < p.val), _band(pz, qz) == 0))
         # re-run pow2 axioms for terms introduced by the lemma instances above
         if len(self.pow2_args) != len(ps):
             for t in list(self.pow2_args.values())[len(ps):]:
@@ -539,7 +552,7 @@ def _cvc5_check(solver, timeout_s):
         except OSError: pass
 
 
-def prove(hyps, goal, mode='int', timeout_s=10, want_model=True, use_cvc5=True, extra_axioms=None, opaque_mul=False):
+def prove(hyps, goal, mode='int', timeout_s=10, want_model=True, use_cvc5=True, extra_axioms=None, opaque_mul=False, retries=0, uf_mod=False):
     """decide hyps |= goal.  mode 'int' (parametric) or 'bv' (all variable ranges declared)."""
     t0 = time.time()
     hyps = [ir.truth(h) for h in hyps]
@@ -550,7 +563,7 @@ def prove(hyps, goal, mode='int', timeout_s=10, want_model=True, use_cvc5=True, 
         if mode == 'bv':
             enc = BVEnc(); enc.opaque_mul = opaque_mul; enc.prepare(hyps + [goal])
         else:
-            enc = IntEnc(); enc.opaque_mul = opaque_mul
+            enc = IntEnc(); enc.opaque_mul = opaque_mul; enc.uf_mod = uf_mod
         zh = [enc.z(h) for h in hyps]
         zg = enc.z(goal)
     except Unbounded as e:
@@ -565,6 +578,14 @@ def prove(hyps, goal, mode='int', timeout_s=10, want_model=True, use_cvc5=True, 
     s.add(zh)
     s.add(z3.Not(zg))
     r = s.check()
+    # quantifier instantiation is sensitive to incidental term order: an `unknown` is retried with other seeds (a proof found
+    # under any seed is a proof; `unknown` is never turned into anything else)
+    for k in range(retries):
+        if r != z3.unknown: break
+        s2 = z3.Solver(); s2.set('timeout', int(timeout_s * 1000)); s2.set('random_seed', 7 * k + 3)
+        if mode == 'int': s2.add(enc.axioms())
+        s2.add(enc.range_hyps()); s2.add(list(reversed(zh)) if k % 2 == 0 else zh); s2.add(z3.Not(zg))
+        r = s2.check(); s = s2
     dt = time.time() - t0
     if r == z3.unsat:
         return Verdict('proved', 'z3', dt, mode=mode)
